@@ -45,7 +45,10 @@ def chunks {β : Type} : List Nat → List β → List (List β)
   | [], _ => []
   | n :: ns, l => l.take n :: chunks ns (l.drop n)
 
-def entropy2 (t : Float) : Float := -t * Float.log t - (1 - t) * Float.log (1 - t)
+/-- `scipy.special.entr`: `-x log x` for `x > 0`, `0` at `0`, `-inf` below -/
+def entr (x : Float) : Float := if x > 0 then -x * Float.log x else if x == 0 then 0 else -(1 / 0)
+/-- binary entropy as the source writes it since 7465b1e: `entr(t) + entr(1-t)` -/
+def entropy2 (t : Float) : Float := entr t + entr (1 - t)
 
 def tableOf? : String → Option UPBTable
   | "tiles" => some upbTiles
@@ -147,7 +150,8 @@ def handle (args : List String) : String :=
       let some a := fOfBits? a | return "bad-op"
       let df : Float := d.toFloat
       let v1 : Float → Float := fun F =>
-        let g := (Float.sqrt F + Float.sqrt ((df - 1) * (1 - F))) ^ 2 / df
+        let g0 := (Float.sqrt F + Float.sqrt ((df - 1) * (1 - F))) ^ 2 / df
+        let g := if g0 < 1 then g0 else 1      -- `np.minimum(…, 1)`
         entropy2 g + (1 - g) * Float.log (df - 1)
       let v2 : Float → Float := fun F => df * Float.log (df - 1) * (F - 1) / (df - 2) + Float.log df
       return bitsOfF (isotropicEof v1 v2 4 d a)
